@@ -23,7 +23,9 @@ def run_scheduled(mode, schedule, workdir, idx, delay=""):
     env = core.base_env({"PATH": binpath + ":/usr/bin:/bin", "DELTA_VERIF_TRACE": trace,
                          "DELTA_VERIF_SCHEDULE": ",".join(schedule)})
     if delay:
-        env["DELTA_VERIF_DELAY"] = delay
+        env["DELTA_VERIF_DELAY"] = delay.split(";")[0]
+        if ";stub:" in delay:
+            env["STUB_DELAY_MS"] = delay.split(";stub:")[1]
     if mode == "wrap":
         grep_file = os.path.join(workdir, "grep.txt")
         env["STUB_OUT"] = grep_file
@@ -120,6 +122,10 @@ def run(tier):
         window = [s for s in scheds if "m_enter" in s and "b_compute" in s and "m_released" in s
                   and s.index("m_enter") < s.index("b_compute") < s.index("m_released")]
         jobs += [(mode, s, "m_enter:300") for s in window]
+        if mode == "wrap":
+            # a background thread that starts late (everything it does comes after the publication), with a launched command
+            # that takes its time: what the thread learns must not replace what delta knows about its own command
+            jobs += [(mode, s, "b_start:150;stub:600") for s in scheds if s and s[0] == "m_enter"][:6]
         jobs.append((mode, [], ""))           # unconstrained run: the reference output
         if mode == "stdin":
             jobs += [("wrapother", s, "") for s in scheds[:: 2 if tier == "quick" else 1]] + [("wrapother", [], "")]
@@ -150,7 +156,7 @@ def run(tier):
             continue
         events.append({"run": i, "label": "reset", "value": "stdin" if mode == "wrapother" else "wrap" if mode == "wrapopt" else mode})
         for e in r["events"]:
-            if e["label"] in ("b_released", "m_released") and e["value"] != "TIMEOUT":
+            if e["label"] in ("b_released", "m_released", "b_start") and e["value"] != "TIMEOUT":
                 continue          # waiting points after the mutex was released: not model actions
             v = e["value"]
             v = {"GitLog": "Guess", "GitGrep": "Known", "Pending": "Pending", "": "", "TIMEOUT": "TIMEOUT"}.get(v, "Other:" + v)
